@@ -38,8 +38,8 @@ func probe() {
 	kit.Apply(ctx, c, np)
 	for i := 0; i < 4; i++ {
 		p := test.UnschedulablePod(test.PodOptions{
-			ObjectMeta: metav1.ObjectMeta{Name: fmt.Sprintf("p%d", i), Labels: map[string]string{"app": "foo"}},
-			PodAntiRequirements: []corev1.PodAffinityTerm{{TopologyKey: corev1.LabelHostname, LabelSelector: &metav1.LabelSelector{MatchLabels: map[string]string{"app": "foo"}}}},
+			ObjectMeta:           metav1.ObjectMeta{Name: fmt.Sprintf("p%d", i), Labels: map[string]string{"app": "foo"}},
+			PodAntiRequirements:  []corev1.PodAffinityTerm{{TopologyKey: corev1.LabelHostname, LabelSelector: &metav1.LabelSelector{MatchLabels: map[string]string{"app": "foo"}}}},
 			ResourceRequirements: corev1.ResourceRequirements{Requests: corev1.ResourceList{corev1.ResourceCPU: resource.MustParse("1")}},
 		})
 		kit.Apply(ctx, c, p)
